@@ -1308,3 +1308,151 @@ TWINS["C20_twin_pure_loader"] = ("C20", [(A, "        return x.dtype.__getitem__
 
 
 def _pickle_array_annotation(x""")])
+
+# ------------------------------------------------------------------------- C17
+SEEDS["C17_truthiness_of_result"] = ("C17", [(D, "                if full_signature.return_annotation is not inspect.Signature.empty:", "                if full_signature.return_annotation is not inspect.Signature.empty and out is not None and out:")], "C17.2")
+SEEDS["C17_asarray_of_obj"] = ("C17", [(A, """        if cls.index_variadic is None:
+            if len(obj.shape) != len(cls.dims):""", """        obj = np.asarray(obj)
+        if cls.index_variadic is None:
+            if len(obj.shape) != len(cls.dims):""")], "C17.1")
+SEEDS["C17_weak_type_leniency"] = ("C17", [(A, """            if not in_dtypes:
+                if len(cls.dtypes) == 1:""", """            if not in_dtypes and getattr(obj, "weak_type", False):
+                in_dtypes = True
+            if not in_dtypes:
+                if len(cls.dtypes) == 1:""")], "C17.1")
+SEEDS["C17_obj_attribute_weak_type"] = ("C17", [(A, """            if not in_dtypes:
+                if len(cls.dtypes) == 1:""", """            if not in_dtypes and obj.weak_type:
+                in_dtypes = True
+            if not in_dtypes:
+                if len(cls.dtypes) == 1:""")], "C17.1")
+SEEDS["C17_second_eval_sees_arguments"] = ("C17", [(A, "                eval_size = eval(elem, single_memo.copy())", "                eval_size = eval(elem, single_memo.copy(), arg_memo.copy())")], "C17.3")
+SEEDS["C17_leaf_equality"] = ("C17", [(P, """            if cls.structure is None:
+                # No `?` annotations""", """            if leaf == 0:
+                continue
+            if cls.structure is None:
+                # No `?` annotations""")], "C17.2")
+SEEDS["C17_size_of_array"] = ("C17", [(A, """        if cls.index_variadic is None:
+            if len(obj.shape) != len(cls.dims):""", """        if cls.index_variadic is None:
+            if obj.size == 0:
+                return \"\"
+            if len(obj.shape) != len(cls.dims):""")], "C17.1")
+SEEDS["C17_format_result_on_success"] = ("C17", [(D, """                # Actually call the function.
+                out = fn(*args, **kwargs)
+""", """                # Actually call the function.
+                out = fn(*args, **kwargs)
+                _ = _pformat(out, short_self=False)
+""")], "C17.2")
+TWINS["C17_twin_shape_len_hoisted"] = ("C17", [(A, """        if cls.index_variadic is None:
+            if len(obj.shape) != len(cls.dims):""", """        rank = len(obj.shape)
+        if cls.index_variadic is None:
+            if rank != len(cls.dims):""")])
+
+# ------------------------------------------------------------------------- C09
+SEEDS["C09_unbound_composite_returns_false"] = ("C09", [(P, """                    except KeyError as e:
+                        raise AnnotationError(
+                            f"Cannot process composite structure '{cls.structure}' "
+                            f"as the structure name {identifier} has not been seen "
+                            "before."
+                        ) from e""", """                    except KeyError:
+                        return False""")], "C09.1")
+SEEDS["C09_is_leaftype_catches_exception"] = ("C09", [(P, """                except TypeError:
+                    return False
+                else:
+                    return True""", """                except Exception:
+                    return False
+                else:
+                    return True""")], "C09.1")
+SEEDS["C09_builder_typeerror"] = ("C09", [(P, """                if not isinstance(X.structure, str):
+                    raise ValueError(""", """                if not isinstance(X.structure, str):
+                    raise TypeError(""")], "C09.2")
+SEEDS["C09_empty_string_accepted"] = ("C09", [(P, """                if len(pieces) == 0:
+                    raise ValueError(
+                        "The string `struct` in `jaxtyping.PyTree[leaftype, struct]` "
+                        "cannot be the empty string."
+                    )
+""", "")], "C09.2")
+SEEDS["C09_ellipsis_anywhere"] = ("C09", [(P, """                    if (piece_index == 0) or (piece_index == len(pieces) - 1):
+                        if piece == "...":
+                            continue""", """                    if piece == "...":
+                        continue""")], "C09.2")
+SEEDS["C09_tokenisation_mismatch"] = ("C09", [(P, "                pieces = X.structure.split()", '                pieces = X.structure.removeprefix("...").removesuffix("...").split()')], "C09.2")
+SEEDS["C09_identifier_rebinds"] = ("C09", [(P, """                else:
+                    if prev_structure != structure:
+                        return False
+            else:
+                named_pytree = 0""", """                else:
+                    if prev_structure != structure:
+                        pytree_memo[cls.structure] = structure
+            else:
+                named_pytree = 0""")], "C09.3")
+SEEDS["C09_modes_swapped"] = ("C09", [(P, """                    pieces = pieces[1:]
+                    prefix = False
+                    suffix = True""", """                    pieces = pieces[1:]
+                    prefix = True
+                    suffix = False""")], "C09.4")
+SEEDS["C09_exact_uses_num_leaves"] = ("C09", [(P, """                    if structure != named_structure:
+                        return False""", """                    if structure.num_leaves != named_structure.num_leaves:
+                        return False""")], "C09.4")
+SEEDS["C09_prefix_leafcount_early_out"] = ("C09", [(P, """                if prefix:
+                    dummy_pytree""", """                if prefix and len(leaves) < named_structure.num_leaves:
+                    return False
+                if prefix:
+                    dummy_pytree""")], "ANALYSIS-ERROR")
+TWINS["C09_twin_message_reworded"] = ("C09", [(P, '"cannot be the empty string."', '"must not be empty."')])
+
+# ------------------------------------------------------------------------- C15
+SEEDS["C15_dims_order_swapped"] = ("C15", [(A, "        dims = dims + array_type.dims\n", "        dims = array_type.dims + dims\n")], "C15.1")
+SEEDS["C15_dimstr_order_swapped"] = ("C15", [(A, '        dim_str = dim_str + " " + array_type.dim_str', '        dim_str = array_type.dim_str + " " + dim_str')], "C15.1")
+SEEDS["C15_shift_after_concat"] = ("C15", [(A, """        if array_type.index_variadic is not None:
+            if index_variadic is None:
+                index_variadic = array_type.index_variadic + len(dims)
+            else:
+                raise ValueError(
+                    "Cannot use variadic specifiers (`*name` or `...`) "
+                    "in both the original array and the extended array"
+                )
+        dims = dims + array_type.dims""", """        outer_len = len(dims)
+        dims = dims + array_type.dims
+        if array_type.index_variadic is not None:
+            if index_variadic is None:
+                index_variadic = array_type.index_variadic + len(dims)
+            else:
+                raise ValueError(
+                    "Cannot use variadic specifiers (`*name` or `...`) "
+                    "in both the original array and the extended array"
+                )""")], "C15.1")
+SEEDS["C15_both_variadic_truthiness"] = ("C15", [(A, """            if index_variadic is None:
+                index_variadic = array_type.index_variadic + len(dims)
+            else:
+                raise ValueError(
+                    "Cannot use variadic specifiers (`*name` or `...`) "
+                    "in both the original array and the extended array"
+                )""", """            if index_variadic:
+                raise ValueError(
+                    "Cannot use variadic specifiers (`*name` or `...`) "
+                    "in both the original array and the extended array"
+                )
+            index_variadic = array_type.index_variadic + len(dims)""")], "C15.1")
+SEEDS["C15_union_not_intersection"] = ("C15", [(A, "            dtypes = tuple(x for x in dtypes if x in array_type.dtypes)", "            dtypes = tuple(dtypes) + tuple(x for x in array_type.dtypes if x not in dtypes)")], "C15.1")
+SEEDS["C15_empty_intersection_allowed"] = ("C15", [(A, """            if len(dtypes) == 0:
+                raise ValueError(
+                    "A jaxtyping annotation cannot be extended with no overlapping "
+                    "dtypes. For example, `Bool[Float[Array, 'dim1'], 'dim2']` is an "
+                    "error. You probably want to make the outer wrapper be `Shaped`."
+                )
+""", "")], "C15.1")
+SEEDS["C15_union_members_different_spec"] = ("C15", [(A, "            out = [_make_array(x, dim_str, cls) for x in get_args(array_type)]", '            out = [_make_array(x, dim_str if i == 0 else "...", cls) for i, x in enumerate(get_args(array_type))]')], "ANALYSIS-ERROR")
+SEEDS["C15_typevar_constraints_first_only"] = ("C15", [(A, "                    array_type = Union[constraints]", "                    array_type = constraints[0]")], "C15.2")
+SEEDS["C15_int_prefix_wrong"] = ("C15", [(A, """    elif array_type is int:
+        if _check_scalar("int", dtypes, dims):""", """    elif array_type is int:
+        if _check_scalar("", dtypes, dims):""")], "C15.3")
+SEEDS["C15_scalar_substring_search"] = ("C15", [(A, "    return (_any_dtype is dtypes) or any(d.startswith(dtype) for d in dtypes)", "    return (_any_dtype is dtypes) or any(dtype in d for d in dtypes)")], "C15.3")
+SEEDS["C15_scalar_rank_not_required"] = ("C15", [(A, """    for dim in dims:
+        if dim is not _anonymous_variadic_dim and not isinstance(
+            dim, _NamedVariadicDim
+        ):
+            return False
+    return (_any_dtype""", """    return (_any_dtype""")], "C15.3")
+SEEDS["C15_scalar_alias_wrong_shape"] = ("C15", [(I, '            return Shaped[jax.Array, ""]', '            return Shaped[jax.Array, "..."]')], "C15.4")
+SEEDS["C15_prngkey_without_old_style"] = ("C15", [(I, '            return Union[Key[jax.Array, ""], UInt32[jax.Array, "2"]]', '            return Key[jax.Array, ""]')], "C15.4")
+TWINS["C15_twin_comment"] = ("C15", [(A, "        dims = dims + array_type.dims\n", "        dims = dims + array_type.dims  # outer first\n")])
